@@ -427,7 +427,7 @@ func c22DeepCopy(v any) any {
 }
 
 func TestC22_ConfigParsesExactly(t *testing.T) {
-	vk.Check(t, 12000, func(rt *rapid.T) {
+	vk.Check(t, 10000, func(rt *rapid.T) {
 		inV, inPresent := c22GenTable(rt, "inbound")
 		var outV any
 		outPresent := false
